@@ -85,6 +85,9 @@ inductive Op where
   | treePushFrontValue | treeInsertValue | treePushFrontTree | treeInsertTree | treePopBack | treePopFront
   | treeErase | treeEraseRange | treeClear | treeSort
   | gridCtorFn | gridCtorValue | gridCtorRows2 | gridStaticRow2 | gridCtorGrid | gridAssign | gridSelfAssign | gridFill
+  -- extension round 3: parse results / options results moved through the combinators
+  | parseAlt | parseOpt | parseConvert | parseAsStruct | parseSeparator | parseList | parseRepPlus
+  | optsArgument | optsOptional | optsProduct | optsMany | optsSum
   deriving DecidableEq, Repr, Inhabited
 
 /-- Arguments (value category, element identities in container order) and the operation's
@@ -343,6 +346,19 @@ def prog (o : Op) (inp : Input) : List Instr :=
   | .gridAssign => .steal 0 .drop :: (if rv 1 then [.steal 1 (.arg 0)] else xferAll 1 (n 1) .copy (.arg 0))
   | .gridSelfAssign => []
   | .gridFill => fillAll 0 (n 0)
+  -- parse / options: no arguments, every value is made by the user's converter (parse) or read from the command line (options::argument)
+  -- and then *moved* through the combinators: `-p`, convert, argument, options::optional - par0 = 1: the input matches
+  | .parseOpt | .parseConvert | .optsArgument | .optsOptional => if par0 = 1 then [.fresh 1000 .res] else []
+  -- `a | b`: par0 = 0: the left alternative matches, 1: the right one, 2: none
+  | .parseAlt => if par0 ≤ 1 then [.fresh 1000 .res] else []
+  -- as_struct(a >> b) / options::apply (product) of two arguments: par0 = how many of the two inputs are there; a first value
+  -- without the second is destroyed
+  | .parseAsStruct | .optsProduct =>
+    if 2 ≤ par0 then [.fresh 1000 .res, .fresh 1001 .res] else if par0 = 1 then [.fresh 1000 .drop] else []
+  | .parseSeparator | .parseList | .parseRepPlus | .optsMany => freshRange par0 .res
+  -- options sum (left = a product of two arguments | right = one argument): par0 = 0: two arguments are given, the left parser
+  -- takes them; 1: one argument is given, the left parser fails after reading it (its value is destroyed), the right one reads it again
+  | .optsSum => if par0 = 0 then [.fresh 1000 .res, .fresh 1001 .res] else [.fresh 1000 .drop, .fresh 1000 .res]
 
 def jn (b : Bool) : String := if b then "J" else "N"
 def sf (b : Bool) : String := if b then "S" else "F"
@@ -401,6 +417,14 @@ def tag (o : Op) (inp : Input) : String :=
   | .contIndexMapGet =>
     match (inp.ids 0)[inp.par.headD 0]? with | some x => s!"R{x}" | none => s!"R{1000 + (inp.par.headD 0 - inp.size 0)}"
   | .treePopBack | .treePopFront => jn (decide (1 < inp.size 0))
+  | .parseOpt => jn (inp.par.headD 0 == 1)
+  | .optsOptional => if inp.par.headD 0 == 1 then "SJ" else "SN"
+  | .parseConvert | .optsArgument => sf (inp.par.headD 0 == 1)
+  | .parseAlt => sf (decide (inp.par.headD 0 ≤ 1))
+  | .parseAsStruct | .optsProduct => sf (decide (2 ≤ inp.par.headD 0))
+  | .parseSeparator | .parseList | .optsMany => "S"
+  | .parseRepPlus => sf (decide (1 ≤ inp.par.headD 0))
+  | .optsSum => if inp.par.headD 0 == 0 then "L" else "R"
   | _ => "-"
 
 /-! ## well-formed inputs -/
@@ -562,6 +586,9 @@ def shapeOk (o : Op) (inp : Input) : Bool :=
   | .gridSelfAssign =>
     inp.args.length == 1 && catIn inp 0 [.io] && inp.par.length == 1 && inp.par.headD 0 ≤ 1
   | .gridFill => inp.args.length == 1 && catIn inp 0 [.io] && inp.par.isEmpty
+  | .parseOpt | .parseConvert | .optsArgument | .optsOptional | .optsSum => inp.args.length == 0 && inp.par.length == 1 && inp.par.headD 0 ≤ 1
+  | .parseAlt | .parseAsStruct | .optsProduct => inp.args.length == 0 && inp.par.length == 1 && inp.par.headD 0 ≤ 2
+  | .parseSeparator | .parseList | .parseRepPlus | .optsMany => inp.args.length == 0 && inp.par.length == 1
 
 def wf (o : Op) (inp : Input) : Bool := idsOk inp && shapeOk o inp
 
@@ -592,7 +619,7 @@ first success in `first_success`, a half-parsed sequence, the emptied `move_rang
 def drops : Op → Bool
   | .eithApply2 | .eithFirstSuccess | .parseSequence | .moveRangeMap | .optCombine | .optAssign
   | .algMapIteration | .algMapIterationSecond | .algSeqIteration | .treeAssign | .treeSetValue | .treeErase | .treeEraseRange | .treeClear
-  | .gridAssign | .gridFill => true
+  | .gridAssign | .gridFill | .parseAsStruct | .optsProduct | .optsSum => true
   | _ => false
 
 /-! ## the programs of three repaired defects, kept for the refuted examples in Props/C05.lean -/
@@ -628,7 +655,9 @@ def Op.all : List Op :=
    .contMaybeBack, .contMaybeFront, .contFindOptMapped, .contIndexMapGet,
    .treeCtorTree, .treeCtorChildren, .treeAssign, .treeSelfAssign, .treeSetValue, .treePushFrontValue, .treeInsertValue,
    .treePushFrontTree, .treeInsertTree, .treePopBack, .treePopFront, .treeErase, .treeEraseRange, .treeClear, .treeSort,
-   .gridCtorFn, .gridCtorValue, .gridCtorRows2, .gridStaticRow2, .gridCtorGrid, .gridAssign, .gridSelfAssign, .gridFill]
+   .gridCtorFn, .gridCtorValue, .gridCtorRows2, .gridStaticRow2, .gridCtorGrid, .gridAssign, .gridSelfAssign, .gridFill,
+   .parseAlt, .parseOpt, .parseConvert, .parseAsStruct, .parseSeparator, .parseList, .parseRepPlus,
+   .optsArgument, .optsOptional, .optsProduct, .optsMany, .optsSum]
 
 def Op.name : Op → String
   | .algMap => "algmap" | .fold => "fold" | .foldBreak => "foldbrk" | .mapConcat => "mapcat" | .mapOptional => "mapopt"
@@ -671,5 +700,9 @@ def Op.name : Op → String
   | .treeClear => "treeclear" | .treeSort => "treesort"
   | .gridCtorFn => "gridctorfn" | .gridCtorValue => "gridctorvalue" | .gridCtorRows2 => "gridctorrows2" | .gridStaticRow2 => "gridstaticrow2"
   | .gridCtorGrid => "gridctorgrid" | .gridAssign => "gridassign" | .gridSelfAssign => "gridselfassign" | .gridFill => "gridfill"
+  | .parseAlt => "parsealt" | .parseOpt => "parseopt" | .parseConvert => "parseconv" | .parseAsStruct => "parsestruct"
+  | .parseSeparator => "parsesep" | .parseList => "parselist" | .parseRepPlus => "parserepplus"
+  | .optsArgument => "optsarg" | .optsOptional => "optsoptional" | .optsProduct => "optsproduct" | .optsMany => "optsmany"
+  | .optsSum => "optssum"
 
 end Fcppt.C05
